@@ -4,7 +4,8 @@ runs the real `fn_to_sympy`.
 
 Wire form (decoded by lean/MxlVerif/Driver/H_c06.lean):
   PyExpr  ["num", "n/d"] | ["name", x] | ["attr", "mod.K"] | ["un", op, e] | ["bin", op, l, r]
-          | ["cmp", l, [ops], [rs]] | ["ife", c, t, e] | ["call", TARGET, [args]] | ["unsupported"]
+          | ["cmp", l, [ops], [rs]] | ["ife", c, t, e] | ["call", "f" or "mod.f", [args]] | ["callkw", path, [positional args]]
+          | ["unsupported"]      (globals hold ["fn", TARGET] for the callable members a call path can resolve to)
   TARGET  ["user", "mod:fn"] | ["known", "math.sqrt"] | ["unresolved"]
   PyStmt  ["assign", x, e] | ["tuple", [xs], [es]] | ["aug", x, op, e] | ["if", c, [t], [e]] | ["ret", e]
           | ["retnone"] | ["skip"] | ["opaque"]
@@ -173,20 +174,40 @@ class Encoder:
                 self.features.add("truthiness_test")
             return ["ife", E(n.test), E(n.body), E(n.orelse)]
         if isinstance(n, ast.Call):
-            if n.keywords or any(isinstance(a, ast.Starred) for a in n.args):
+            if any(isinstance(a, ast.Starred) for a in n.args) or any(k.arg is None for k in n.keywords):
                 self.features.add("unsupported_expr")
                 return ["unsupported"]
             args = [E(a) for a in n.args]
-            _, obj = self.resolve_path(n.func, mod)
+            for k in n.keywords:
+                E(k.value)  # only for the globals / features it mentions; the translator never looks at keywords
+            # a call with keyword arguments keeps its positional arguments only (`callkw`: no Python semantics in the model)
+            tag = "callkw" if n.keywords else "call"
+            if n.keywords:
+                self.features.add("call_kw")
+                if not n.args:
+                    self.features.add("call_kw_nopos")
+            path, obj = self.resolve_path(n.func, mod)
+            if path is None:
+                self.features.add("unsupported_expr")
+                return ["unsupported"]
+            # the model looks `path` up among the callable members recorded in `globals` (a snapshot of the module
+            # namespace, like the float constants); what is not recorded is "py_fn is None"
             if obj is None or not callable(obj):
                 self.features.add("call_unresolved")
-                return ["call", ["unresolved"], args]
+                return [tag, path, args]
             key = self.known_by_id.get(id(obj))
             if key is None and isinstance(obj, types.FunctionType) and self.has_source(obj):
                 self.features.add("call_user" if obj.__module__ in self.gen_modules else "call_library")
-                return ["call", ["user", self.add_fn(obj)], args]
+                q = self.add_fn(obj)
+                if len(args) < obj.__code__.co_argcount and not n.keywords:
+                    self.features.add("call_fewer_args")
+                if obj.__defaults__ or obj.__kwdefaults__ or obj.__code__.co_kwonlyargcount:
+                    self.features.add("callee_defaults")
+                glob[path] = ["fn", ["user", q]]
+                return [tag, path, args]
             self.features.add("call_known" if key else "call_foreign")
-            return ["call", ["known", key or f"?{getattr(obj, '__name__', 'callable')}"], args]
+            glob[path] = ["fn", ["known", key or f"?{getattr(obj, '__name__', 'callable')}"]]
+            return [tag, path, args]
         self.features.add("unsupported_expr")
         return ["unsupported"]
 
@@ -576,9 +597,58 @@ def hsel(a, b, c):
         return -c
     else:
         return 0
+
+
+def hdef(a, b=2.0, c=0.5, d=4.0):
+    return (a - b) * c + d
+
+
+def hkw(a, *, g=2.0, h=0.5):
+    return a * g - h
+
+
+def hmd(a, b, c=0.25, *, e=8.0, w):
+    if a > b:
+        return a * c + e
+    return b - w
+
+
+def hone(a, r=0.25):
+    return a * r
 '''
 
 HELPERS = [("hsub", 2), ("hmul", 2), ("hclip", 2), ("hmix", 2), ("hsel", 3)]
+
+# helper signatures with default values / keyword-only parameters: (name, positional [(param, has_default)], keyword-only)
+SIGS = [
+    ("hdef", [("a", False), ("b", True), ("c", True), ("d", True)], []),
+    ("hkw", [("a", False)], [("g", True), ("h", True)]),
+    ("hmd", [("a", False), ("b", False), ("c", True)], [("e", True), ("w", False)]),
+    ("hone", [("a", False), ("r", True)], []),
+]
+
+
+def call_shapes(sig) -> list[list[tuple[str | None, str]]]:
+    """every legal way to call `sig`: (None, param) = passed positionally, (param, param) = passed by keyword"""
+    import itertools
+
+    _, pos, kwo = sig
+    out = []
+    for npos in range(len(pos) + 1):
+        rest = pos[npos:]
+        opt = [p for p, d in rest if d] + [p for p, d in kwo if d]
+        req = [p for p, d in rest if not d] + [p for p, d in kwo if not d]
+        for k in range(len(opt) + 1):
+            for sub in itertools.combinations(opt, k):
+                out.append([(None, p) for p, _ in pos[:npos]] + [(p, p) for p in req + list(sub)])
+    return out
+
+
+def render_call(fname: str, shape, value_of: dict[str, str], rng=None) -> str:
+    kws = [f"{k}={value_of[p]}" for k, p in shape if k is not None]
+    if rng is not None:
+        rng.shuffle(kws)
+    return f"{fname}({', '.join([value_of[p] for k, p in shape if k is None] + kws)})"
 PARAM_POOL = ["a", "b", "c", "x", "y", "k", "s", "p", "q"]
 LOCAL_POOL = ["t", "u", "v", "w", "r", "z"]
 
@@ -662,6 +732,12 @@ class Gen:
         if r.random() < 0.15:
             cands = [("fns.michaelis_menten_1s", 3), ("fns.mass_action_1s", 2), ("mass_action_1s", 2), ("fns.minus", 2),
                      ("fns.mass_action_2s", 3), ("fns.one_div", 1), ("fns.neg_div", 2)]
+        if r.random() < 0.12:
+            sig = r.choice(SIGS)
+            shape = r.choice(call_shapes(sig))
+            vals = {p: (r.choice(vs) if vs and r.random() < 0.7 else r.choice(["1", "2", "4", "0.5", "-1"]))
+                    for p, _ in sig[1] + sig[2]}
+            return render_call("hp." + sig[0], shape, vals, r)
         name, k = r.choice(cands)
         if vs and (r.random() < 0.5 or not name.startswith("h") or "fns" in name or name == "mass_action_1s"):
             # arguments that are bare names (often the callee's own parameter names, permuted) or powers of two: a
@@ -798,8 +874,13 @@ class Gen:
         if not ret and r.random() < 0.9:
             vs = params
             body.append(f"    return {self.arith(vs + [v for v in LOCAL_POOL if any(l.strip().startswith(v + ' =') and l.startswith('    ' + v) for l in body)], 2)}")
-        src = f"def {name}({', '.join(params)}):\n" + "\n".join(body) + "\n"
+        ndef = r.choice([1, 2, k]) if k >= 2 and r.random() < 0.2 else 0
+        ndef = min(ndef, k - 1)
+        sig = [p if i < k - ndef else f"{p}={r.choice(['2.0', '0.5', '4.0', '1.0', '-2.0'])}" for i, p in enumerate(params)]
+        src = f"def {name}({', '.join(sig)}):\n" + "\n".join(body) + "\n"
         self.prev_fns.append((name, k))
+        if ndef:
+            self.prev_fns.append((name, k - r.randint(1, ndef)))  # callable with some defaults left out
         return src, k
 
 
@@ -1004,10 +1085,15 @@ def make_points(rng, nparams: int, lits: list[Fraction], n: int) -> list[list[Fr
     return [list(p) for p in dict.fromkeys(pts)][: max(want, 6)]
 
 
-def make_renamings(rng, params: list[str]) -> list[list[str] | None]:
-    """None = no model_args; otherwise the symbol names passed as model_args"""
+def make_renamings(rng, params: list[str], ndefaults: int = 0) -> list[list[str] | None]:
+    """None = no model_args; otherwise the symbol names passed as model_args (fewer than the parameters when the
+    trailing parameters have default values: a model component may list only the leading arguments)"""
     out: list[list[str] | None] = [None]
     k = len(params)
+    if ndefaults:
+        m = k - rng.randint(1, ndefaults)
+        if m >= 1:
+            out.append(list(params[:m]) if rng.random() < 0.5 else [f"m{i}" for i in range(m)])
     if k >= 2:
         perm = params[1:] + params[:1]
         out.append(perm)
@@ -1110,12 +1196,14 @@ def evaluate_module(job):
         lits = literals_of(fsrc)
         points = job.get("points", {}).get(fname) or make_points(rng, len(params), lits, job["npoints"])
         points = [[Fraction(v) for v in p] for p in points]
-        renamings = job.get("renamings", {}).get(fname) or make_renamings(rng, params)
+        renamings = job.get("renamings", {}).get(fname) or make_renamings(rng, params, len(fn.__defaults__ or ()))
         obs = []
         pyv = [py_value(fn, p) for p in points]
         for ren in renamings:
             status, expr = run_real(fn, ren)
             rec = {"rename": ren, "status": status}
+            if ren is not None and len(ren) < len(params):
+                rec["py"] = [py_value(fn, p[: len(ren)]) for p in points]
             syms = params if ren is None else ren
             if expr is not None:
                 try:
